@@ -318,5 +318,123 @@ class Programs(Unit):
         rec.nontrivial()
 
 
+class TtxCli(Unit):
+    name = "ttx-cli"
+    rule = ("the fonttools ttx command line on font files: every option set from {default, -s, -g, -i, -z extfile, --newline CRLF, --newline CR, -t <each table>, -x <each table> (then compiled with -m <original>), -d other directory, -o explicit name} "
+            "on generated + small corpus fonts: ttx font -> .ttx, ttx .ttx --no-recalc-timestamp -> font; table bytes of the result equal those of the font saved from its object model; output files only where requested; distinct = (font, option set)")
+    chunk = 2
+    required_witnesses = ("-s", "-g", "-t/-m merge")
+
+    def setup(self, tier, seed):
+        load_fonts()
+
+    def cases(self, tier, seed):
+        keys = [k for k in sorted(_FONTS) if not corpus.is_aots(k) and len(_FONTS[k][0]) < 20000]
+        keys += [k for k in sorted(_FONTS) if corpus.is_aots(k)][(seed % 7)::40]
+        if tier == "quick":
+            keys = [k for i, k in enumerate(keys) if (i + seed) % 3 == 0 or k.startswith("tiny:") or k.endswith(".ttc#0") or k.endswith(".ttc#1")]
+        for key in keys:
+            data, idx = _FONTS[key]
+            for opts in ([], ["-s"], ["-g"], ["-i"], ["-z", "extfile"], ["--newline", "CRLF"], ["--newline", "CR"], ["-d"], ["-o"]):
+                yield [key, opts, None]
+            try:
+                tags = [t for t in TTFont(io.BytesIO(data), fontNumber=idx, lazy=True).keys() if t != "GlyphOrder"]
+            except Exception:
+                continue
+            for t in tags:
+                yield [key, ["-t", t], t]
+                if tier == "thorough":
+                    yield [key, ["-x", t], t]
+
+    def check(self, case, rec):
+        from fontTools import ttx
+
+        key, opts, tag = case
+        data, idx = _FONTS[key]
+        # the command line works on files: give it the font at its recompile fixed point, so
+        # that which tables get decoded (all of them, or one merged with -m) cannot matter
+        src = TTFont(io.BytesIO(data), fontNumber=idx, recalcTimestamp=False)
+        src.ensureDecompiled()
+        src.flavor = None
+        a = io.BytesIO()
+        src.save(a)
+        src = TTFont(io.BytesIO(a.getvalue()), recalcTimestamp=False)
+        src.ensureDecompiled()
+        a = io.BytesIO()
+        src.save(a)
+        data, idx = a.getvalue(), -1
+        A = parse_sfnt(data)
+        tmp = tempfile.mkdtemp(prefix="c03cli", dir=TMPROOT)
+        try:
+            ext = ".ttc" if idx >= 0 else (".otf" if "CFF " in A or "CFF2" in A else ".ttf")
+            fpath = os.path.join(tmp, "in", "font" + ext)
+            os.makedirs(os.path.dirname(fpath))
+            with open(fpath, "wb") as f:
+                f.write(data)
+            args = ["-q"]
+            outdir = os.path.dirname(fpath)
+            xpath = os.path.join(outdir, "font.ttx")
+            o = list(opts)
+            if o == ["-d"]:
+                outdir = os.path.join(tmp, "elsewhere")
+                os.makedirs(outdir)
+                o = ["-d", outdir]
+                xpath = os.path.join(outdir, "font.ttx")
+            elif o == ["-o"]:
+                xpath = os.path.join(tmp, "named.ttx")
+                o = ["-o", xpath]
+            before = snapshot_tree(tmp)
+            ttx.main(args + o + [fpath])
+            if not os.path.exists(xpath):
+                rec.violation("ttx-cli:output-missing", "%s %s: expected dump at %s; tree: %s" % (key, opts, xpath, sorted(snapshot_tree(tmp))))
+                return
+            # nothing written outside the requested output directory
+            new = set(snapshot_tree(tmp)) - set(before)
+            stray = [p for p in new if not p.startswith(os.path.dirname(xpath))]
+            if stray:
+                rec.violation("ttx-cli:stray-output", "%s %s: files created outside the output location: %s" % (key, opts, stray))
+            cargs = ["-q", "--no-recalc-timestamp", "-o", os.path.join(tmp, "back" + ext.replace(".ttc", ".ttf"))]
+            if tag is not None:
+                cargs += ["-m", fpath]
+                rec.witness("-t/-m merge")
+            ttx.main(cargs + [xpath])
+            back = open(os.path.join(tmp, "back" + ext.replace(".ttc", ".ttf")), "rb").read()
+        finally:
+            shutil.rmtree(tmp, ignore_errors=True)
+        B = parse_sfnt(back)
+        if "-s" in opts:
+            rec.witness("-s")
+        if "-g" in opts:
+            rec.witness("-g")
+        if sorted(A) != sorted(B):
+            rec.violation("ttx-cli:table-set", "%s %s: tables %s vs %s" % (key, opts, sorted(set(A) - set(B)), sorted(set(B) - set(A))))
+            return
+        g2 = None
+        for t in sorted(A):
+            x, y = A[t], B[t]
+            if t == "head":
+                x, y = x[:8] + b"\0\0\0\0" + x[12:], y[:8] + b"\0\0\0\0" + y[12:]
+            if x == y:
+                continue
+            if t in FREE_TEXT:
+                s2 = TTFont(io.BytesIO(a.getvalue()))
+                g2 = TTFont(io.BytesIO(back))
+                xa, xb = io.StringIO(), io.StringIO()
+                s2.saveXML(xa, tables=[t], writeVersion=False)
+                g2.saveXML(xb, tables=[t], writeVersion=False)
+                if collapse_ws(xa.getvalue()) == collapse_ws(xb.getvalue()):
+                    continue
+            rec.violation("ttx-cli:table-bytes:%s:%s" % (t, "+".join(o for o in opts if o.startswith("-")) or "defaults"), "%s %s: table %r differs after ttx dump + compile (%d vs %d bytes)" % (key, opts, t, len(x), len(y)))
+        rec.nontrivial()
+
+
+def snapshot_tree(root):
+    out = []
+    for d, _dirs, files in os.walk(root):
+        for f in files:
+            out.append(os.path.join(d, f))
+    return out
+
+
 def units():
-    return [DumpImport(), Programs()]
+    return [DumpImport(), Programs(), TtxCli()]
